@@ -48,21 +48,26 @@ def _multi():
 
 
 def _chart_timing():
+    """the keys whose presence (non-empty) in an SSC chart makes the chart its own timing source: as a set - the order of
+    the table is not observable - and whether the table holds the descriptors (pinned tree) or the key names themselves"""
     import simfile.timing._private.timingsource as t
-    names = []
+    import props.C18 as c18
+    from simfile.ssc import SSCChart
+    decl = {a: n for a, n, _ in c18.declarations(SSCChart)}
+    names = set()
     for p in t.CHART_TIMING_PROPERTIES:
-        # each entry is an item_property descriptor: recover the key it was declared with
-        import inspect
-        f = getattr(p, "fget", None)
-        nm = None
-        while f is not None and nm is None:
-            nl = inspect.getclosurevars(f).nonlocals
-            if "name" in nl:
-                nm = nl["name"]
-            else:
-                f = next((v for v in nl.values() if inspect.isfunction(v)), None)
-        names.append(nm)
-    return tuple(names), STATED_CHART_TIMING
+        if isinstance(p, str):
+            names.add(p)
+            continue
+        attr = next((a for k in SSCChart.__mro__ for a, v in k.__dict__.items() if v is p), None)
+        if attr is None or attr not in decl:
+            raise TableNotReadable(f"an entry of CHART_TIMING_PROPERTIES ({p!r}) is neither a key nor an item_property of SSCChart")
+        names.add(decl[attr])
+    return names, set(STATED_CHART_TIMING)
+
+
+class TableNotReadable(Exception):
+    pass
 
 
 STATED_ALIASES = {"SMSimfile": {("stops", "STOPS", "FREEZES"), ("bgchanges", "BGCHANGES", "ANIMATIONS")},
@@ -124,7 +129,9 @@ class ClosedConstants(Unit):
                 ok = actual == stated
                 detail = f"{text}; the module has {actual!r}"
             except Exception as e:
-                ok, detail = False, f"{text}; reading the module's table failed: {type(e).__name__}: {e}"
+                # a table that is gone, renamed or reshaped beyond what the reader understands: undecided, not a violation
+                from pyvc.execu import Unsupported
+                raise Unsupported(f"{text}; reading the module's table failed: {type(e).__name__}: {e}")
             ex.prove(f"closed:{w}", z3.BoolVal(bool(ok)), detail)
 
     def replay(self, model, ob):
